@@ -189,7 +189,8 @@ impl<A: SocketAddress> FdOp for SocketNameOp<A> {
         err: io::Error,
     ) -> io::Result<Self::Output> {
         match err.raw_os_error() {
-            Some(libc::EOPNOTSUPP) => {
+            // NOTE: can't use the system calls with direct descriptors.
+            Some(libc::EOPNOTSUPP) if matches!(fd.kind(), fd::Kind::File) => {
                 let (ptr, length) = unsafe { A::as_mut_ptr(&mut (resources.0).0) };
                 let address_length = &mut (resources.0).1;
                 *address_length = length;
@@ -834,7 +835,8 @@ impl<T: option::Get> FdOp for SocketOptionOp<T> {
         (): &mut Self::Args,
         err: io::Error,
     ) -> io::Result<Self::Output> {
-        if err.kind() == io::ErrorKind::Unsupported {
+        // NOTE: can't use the system call with direct descriptors.
+        if err.kind() == io::ErrorKind::Unsupported && matches!(fd.kind(), fd::Kind::File) {
             // io_uring doesn't support set any other level than SOL_SOCKET at
             // the time of writing, so fallback to the synchronous version.
             sync_socket_option2::<T>(fd.fd())
@@ -890,7 +892,8 @@ impl<T: option::Set> FdOp for SetSocketOptionOp<T> {
         (): &mut Self::Args,
         err: io::Error,
     ) -> io::Result<Self::Output> {
-        if err.kind() == io::ErrorKind::Unsupported {
+        // NOTE: can't use the system call with direct descriptors.
+        if err.kind() == io::ErrorKind::Unsupported && matches!(fd.kind(), fd::Kind::File) {
             // io_uring doesn't support set any other level than SOL_SOCKET at
             // the time of writing, so fallback to the synchronous version.
             sync_set_socket_option2::<T>(fd.fd(), &value.0)
